@@ -10,13 +10,32 @@ def obs? : Sx → Option Obs
     pure { values := vs, pageA := (← a.nat?), pageB := (← b.nat?), rightB := (← r.bool?), ltr := (← l.bool?) }
   | _ => none
 
-/-- `breaks (obs…)` → `ok` | `bad (indices)` -/
+def avoidObs? : Sx → Option AvoidObs
+  | .list [vs, a, b, f] => do
+    let vs ← vs.list?.bind (allSome (fun x => x.atom?.bind Brk.ofCss?))
+    pure { values := vs, pageA := (← a.nat?), pageB := (← b.nat?), aFirst := (← f.bool?) }
+  | _ => none
+
+def insideObs? : Sx → Option InsideObs
+  | .list [v, n, f] => do
+    pure { value := (← v.atom?.bind Brk.ofCss?), pages := (← n.nat?), first := (← f.bool?) }
+  | _ => none
+
+def showBad (bad : List Nat) : String := "(" ++ " ".intercalate (bad.map toString) ++ ")"
+
+/-- `breaks (obs…)` → `ok` | `bad (indices)`; `avoid-obs (between…) (inside…)` → `ok` | `bad (i…) (j…)` -/
 def handle (cmd : String) (args : List Sx) : Option String :=
   match cmd, args with
   | "breaks", [.list os] => do
     let os ← allSome obs? os
     let bad := badObs os
     pure (if bad.isEmpty then "ok" else "bad (" ++ " ".intercalate (bad.map toString) ++ ")")
+  | "avoid-obs", [.list bs, .list is] => do
+    let bs ← allSome avoidObs? bs
+    let is ← allSome insideObs? is
+    let b1 := badAvoid bs
+    let b2 := badInside is
+    pure (if b1.isEmpty && b2.isEmpty then "ok" else "bad " ++ showBad b1 ++ " " ++ showBad b2)
   | _, _ => none
 
 end Wp.Drive.BreakTrace
